@@ -332,6 +332,7 @@ type closureRec struct {
 
 // ScriptBackend implements broker.Backend under the control of the scenario.
 type ScriptBackend struct {
+	pubErrQueueFull bool // an injected Publish failure is broker.ErrQueueFull (the publisher's own queue is full)
 	log  *Log
 	mu   sync.Mutex
 	sess *RecSession
@@ -484,6 +485,9 @@ func (b *ScriptBackend) Publish(_ *broker.Client, msg *packet.Message, ack broke
 	b.log.add("Pub %%g %s %s", hx.MsgText(msg), k)
 	if b.failing("pub") {
 		b.log.add("PubRet %%g fail")
+		if b.pubErrQueueFull {
+			return broker.ErrQueueFull
+		}
 		return errInjected
 	}
 	if r != nil {
